@@ -14,6 +14,7 @@ import NumbersModel.Gen.TrDateFmt
 import NumbersModel.Gen.TrDuration
 import NumbersModel.Gen.TrDec128
 import NumbersModel.Gen.TrMerge
+import NumbersModel.Gen.TrEdit
 import NumbersModel.Drv.Addressing
 import NumbersModel.Model.DateFmt
 
@@ -131,6 +132,20 @@ def handleTrMerge : List String → Option String
       s!"{p.1} {p.2.1} {p.2.2.1} {p.2.2.2.1} {p.2.2.2.2.1} {p.2.2.2.2.2}") (merge_unpack o s))
   | _ => none
 
+/-- `addrow|addcol|delrow|delcol <table rows resp. columns> <count> <start | n>`: reply `ok <start used>` for the two adds,
+    `ok` for the two deletes -/
+def handleTrEdit : List String → Option String
+  | [op, size, n, st] => do
+    let size ← size.toInt?; let n ← n.toInt?
+    let st ← if st == "n" then some none else (st.toInt?).map some
+    match op with
+    | "addrow" => pure (showPyM (fun (i : Int) => s!"{i}") (add_row_args size n st))
+    | "addcol" => pure (showPyM (fun (i : Int) => s!"{i}") (add_column_args size n st))
+    | "delrow" => pure (showPyM (fun (_ : Unit) => "") (delete_row_args size n st))
+    | "delcol" => pure (showPyM (fun (_ : Unit) => "") (delete_column_args size n st))
+    | _ => none
+  | _ => none
+
 /-- the operators of `Py/Trans.lean` themselves, so that the meaning the translator gives to `& | << >> // %` and
     `int(a / b)` / `int(ceil(a / c))` is compared with CPython on signed operands -/
 def handlePyOps : List String → Option String
@@ -164,6 +179,7 @@ def trDispatch (line : String) : String :=
     | "d128" :: rest => handleTrD128 rest
     | "merge" :: rest => handleTrMerge rest
     | "py" :: rest => handlePyOps rest
+    | "edit" :: rest => handleTrEdit rest
     | _ => none
   match r with
   | some s => s
